@@ -315,6 +315,7 @@ var specC34 = vstat.Spec[c34Case]{
 	Gen:      genC34,
 	Check:    checkC34,
 	Inflight: true,
+	Confirm:  true,
 }
 
 func TestC34(t *testing.T)       { vstat.Check(t, specC34) }
